@@ -126,6 +126,17 @@ def generate(rng, tier):
                              'exc': rng.choice(['ValueError', 'KeyError', 'SimError', 'AssertionError']), 'msg': 'fault ' + p['pid']})
     if rng.random() < 0.3:
         plan.append({'clock_jump': rng.randint(0, 12), 'delta': rng.choice([1e6, -1e6, 3600.0, -0.5])})
+    if rng.random() < 0.35:
+        # code under test that emits warnings (recorded by the run, listed by the
+        # runner) -- in doctests that pass, fail or are partly skipped alike
+        taken = set((f['dt'], f['k'], f['pid']) for f in plan if 'pid' in f)
+        for dtid, k, opidx in execs:
+            if rng.random() < 0.4:
+                pts = [p for p in common.points_of(world, dtid) if (dtid, k, p['pid']) not in taken]
+                if pts:
+                    plan.append({'dt': dtid, 'k': k, 'pid': pts[0]['pid'], 'kind': 'warn'})
+        if rng.random() < 0.5:
+            plan.append({'import': rng.choice(world['modules'])['name'], 'kind': 'warn'})
     return {'profile': ID, 'world': world, 'ops': ops, 'plan': plan, 'kinds': kinds,
             'env': {'listing_seed': rng.randint(0, 9999)}}
 
